@@ -184,3 +184,49 @@ func ZZ_C18_Admit() {
 		vAssert(!ok || fc > fv, "c18.admit.canary")
 	}
 }
+
+func init() { vRegister("ZZ_C18_History", ZZ_C18_History) }
+
+// ZZ_C18_History: a short history on a freshly built sketch — increments of two keys and growths of the table in every
+// order (hashes are arbitrary functions of (seed, key): a growth re-seeds). After every step both estimates are at
+// least the number of times the key was recorded since the last growth (capped at 15, no aging step is reachable within
+// the bound: the sampling period is 80+ events) and never exceed 15, regardless of what was recorded for the other key
+// and of which key was looked at last.
+func ZZ_C18_History() {
+	vHashMode(1)
+	s := newSketch[uint64]()
+	capNow := uint64(8)
+	s.ensureCapacity(capNow)
+	keys := []uint64{11, 22}
+	var cnt [2]uint64
+	steps := vParam("steps")
+	sc := ""
+	for i := 0; i < steps; i++ {
+		op := vChoice("op", 3)
+		switch op {
+		case 0, 1:
+			sc += []string{"inc(a);", "inc(b);"}[op]
+			vScenario(sc)
+			s.increment(keys[op])
+			cnt[op]++
+		case 2:
+			sc += "grow;"
+			vScenario(sc)
+			capNow *= 2
+			s.ensureCapacity(capNow)
+			cnt = [2]uint64{}
+		}
+		vAssert(s.size < s.sampleSize, "c18h.no_aging_step_within_the_bound")
+		// look at the keys in both orders (the order is a choice): the estimate must not depend on who was asked last
+		first := vChoice("first", 2)
+		for _, q := range []int{first, 1 - first} {
+			f := s.frequency(keys[q])
+			want := cnt[q]
+			if want > 15 {
+				want = 15
+			}
+			vAssert(f >= want, "c18h.estimate_at_least_times_recorded_since_growth")
+			vAssert(f <= 15, "c18h.estimate_at_most_15")
+		}
+	}
+}
